@@ -156,7 +156,8 @@ package ledger
 //@   requires h.store != nil
 //@   requires (property == "address" || property == "account") && operator != "$in" ==> is(value, string)
 //@   requires (property == "first_usage" || property == "insertion_date" || property == "updated_at") ==> ordOps(operator)
-//@   requires (reMatch(balanceRegex, property) || property == "balance") ==> numMapOps(operator)
+//@   requires keyOf(property) == "balance" ==> numMapOps(operator)
+//@   requires keyOf(property) == "metadata" ==> strMapOps(operator)
 //@   modifies qWhere, qWhereCount, qOrderExpr
 //@   ensures (property != "address" && property != "account" && property != "first_usage" && property != "insertion_date" && property != "updated_at" && (reMatch(balanceRegex, property) || property == "balance") && opts.PIT != nil && !tzero(deref(opts.PIT)) && h.store.ledger.Features["MOVES_HISTORY"] != "ON") ==> err != nil && isErr(err, ErrMissingFeature)
 //@   ensures (property != "address" && property != "account" && property != "first_usage" && property != "insertion_date" && property != "updated_at" && (reMatch(balanceRegex, property) || property == "balance") && opts.PIT != nil && !tzero(deref(opts.PIT)) && h.store.ledger.Features["MOVES_HISTORY_POST_COMMIT_EFFECTIVE_VOLUMES"] != "SYNC") ==> err != nil && isErr(err, ErrMissingFeature)
@@ -188,4 +189,5 @@ package ledger
 //@   property C38
 //@   requires (property == "address" || property == "account") && operator != "$in" ==> is(value, string)
 //@   requires property == "first_usage" ==> ordOps(operator)
-//@   requires (reMatch(balanceRegex, property) || property == "balance") ==> numMapOps(operator)
+//@   requires keyOf(property) == "balance" ==> numMapOps(operator)
+//@   requires keyOf(property) == "metadata" ==> strMapOps(operator)
